@@ -87,7 +87,7 @@ def main():
 
     # ---- 2. audit ---------------------------------------------------------------
     required = list(mod.THEOREMS)
-    forb = C.grep_forbidden(C.lean_sources())
+    forb = C.grep_forbidden(C.lean_closure(modules + ['Driver']))
     audited, failed = {}, {}
     if ok_props:
         rc, audited, aout = C.audit_namespace([f'Mwp.Props.{prop}'], modules)
